@@ -360,5 +360,42 @@ func c11RecordedInStatus(fn *ssa.Function, ff *FuncFacts, ev ssa.Value) bool {
 			}
 		}
 	}
+	// the same through a small helper: under ev != nil a repository function is handed a value
+	// built from the error and stores that parameter into an `Error` field
+	for _, b := range fn.Blocks {
+		if !ff.Holds(b, false, func(v ssa.Value, _ string) bool {
+			return isNilCompareOf(v, func(x ssa.Value) bool { return x == ev })
+		}) {
+			continue
+		}
+		for _, in := range b.Instrs {
+			ci, ok := in.(ssa.CallInstruction)
+			if !ok {
+				continue
+			}
+			cal := staticCallee(ci.Common())
+			if cal == nil || len(cal.Blocks) == 0 || cal.Pkg == nil || fn.Pkg == nil || cal.Pkg != fn.Pkg {
+				continue
+			}
+			for i, a := range ci.Common().Args {
+				if i >= len(cal.Params) || !dependsOnV(a, func(v ssa.Value) bool { return v == ev }) {
+					continue
+				}
+				prm := cal.Params[i]
+				for _, cb := range cal.Blocks {
+					for _, cin := range cb.Instrs {
+						st, ok := cin.(*ssa.Store)
+						if !ok {
+							continue
+						}
+						if fa, ok := st.Addr.(*ssa.FieldAddr); ok && fieldName(fa) == "Error" &&
+							dependsOnV(st.Val, func(v ssa.Value) bool { return v == ssa.Value(prm) }) {
+							return true
+						}
+					}
+				}
+			}
+		}
+	}
 	return false
 }
